@@ -2,7 +2,6 @@
 (testtools/testresult/real.py: ExtendedToOriginalDecorator, MultiTestResult, TestResultDecorator,
 Tagger, TestByTestResult, _details_to_str)."""
 import datetime
-import itertools
 import json
 import re
 import sys
